@@ -88,6 +88,30 @@ AttainsAB(EV, pos, d, uci, v) ==
   \E m \in Legal(pos) : Uci(m) = uci /\ -NMAB(EV, Apply(pos, m), d - 1, 1, -Inf, Inf) = v
 
 ----------------------------------------------------------------------------
+(* History-aware search value for C10: a node (other than the root) whose position has then occurred three times  *)
+(* inside the reversible window is a draw leaf.  The sign of the contempt offset is not fixed by the property, so  *)
+(* the leaf is valued r FROM THE ROOT MOVER'S POINT OF VIEW with r = -c and r = +c: the root value is monotone in   *)
+(* its leaves, hence the two results bracket what any sign convention can report.                                 *)
+RECURSIVE NMR(_, _, _, _, _, _, _)
+RECURSIVE RLoop(_, _, _, _, _, _, _, _, _)
+RLoop(EV, hist, ms, i, d, ply, alpha, beta, r) ==
+  IF i > Len(ms) THEN alpha
+  ELSE LET pos == hist[Len(hist)]
+           v == -NMR(EV, Append(hist, Apply(pos, ms[i])), d - 1, ply + 1, -beta, -alpha, r)
+       IN IF v >= beta THEN beta ELSE RLoop(EV, hist, ms, i + 1, d, ply, Max2(alpha, v), beta, r)
+NMR(EV, hist, d, ply, alpha, beta, r) ==
+  LET pos == hist[Len(hist)]
+      L == Legal(pos)
+  IN IF ply > 0 /\ RepetitionDraw(hist) THEN Clamp(IF ply % 2 = 0 THEN r ELSE -r, alpha, beta)
+     ELSE IF L = {} THEN Clamp(IF InCheck(pos.bd, pos.stm) THEN -(MateBase - ply) ELSE 0, alpha, beta)
+     ELSE IF d = 0 THEN QAB(EV, pos, alpha, beta)
+     ELSE RLoop(EV, hist, VictimOrder(pos, L), 1, d, ply, alpha, beta, r)
+RootR(EV, hist, d, sm, r) ==
+  LET pos == hist[Len(hist)]
+      R == RootMoves(pos, sm)
+  IN IF R = {} THEN 0 ELSE RLoop(EV, hist, VictimOrder(pos, R), 1, d, 0, -Inf, Inf, r)
+
+----------------------------------------------------------------------------
 \* what the engine must print for a root value: centipawns, or mate in N moves (N = ceil(plies / 2), sign from the mover)
 ToUciScore(v) ==
   IF v > MateBase - 1000 THEN [kind |-> "mate", v |-> ToString((MateBase - v + 1) \div 2)]
